@@ -1,4 +1,5 @@
 import errno
+import os
 import io
 import sys
 from abc import ABC, abstractmethod
@@ -244,6 +245,12 @@ class OutputFiles:
             paths = ("-",)
         for path in paths:
             assert path is not None
+        if "fileformat" not in kwargs:
+            # The file objects we pass on do not necessarily know their name
+            # (compressed or proxied files), so detect the format here
+            formats = set(detect_file_format_from_name(path) for path in paths)
+            if len(formats) == 1 and None not in formats:
+                kwargs["fileformat"] = formats.pop()
         binary_files = []
         for path in paths:
             binary_file = self._file_opener.xopen(path, "wb")
@@ -301,6 +308,23 @@ class FileFormat(Enum):
 
     def has_qualities(self) -> bool:
         return self is FileFormat.FASTQ or self is FileFormat.BAM  # TODO BAM?
+
+
+def detect_file_format_from_name(path) -> Optional[str]:
+    """
+    Return "fasta" or "fastq" if the file name extension (before a possible
+    compression extension) says so, None otherwise.
+    """
+    name = os.fspath(path).lower()
+    for ext in (".gz", ".xz", ".bz2", ".zst"):
+        if name.endswith(ext):
+            name = name[: -len(ext)]
+            break
+    if name.endswith((".fasta", ".fa", ".fna")):
+        return "fasta"
+    elif name.endswith((".fastq", ".fq")):
+        return "fastq"
+    return None
 
 
 # TODO copied and adjusted from dnaio; upstream this
